@@ -123,11 +123,13 @@ Theorem searcher_spec_boolean :
     fin_adv C cadv CFin ->
     forall (CAny : C -> Prop),
     (forall c n, CAny c -> 0 <= n -> exists r c', cadv c n = Ok (r, c') /\ CAny c') ->
-    (forall c S lo, CInv c S lo -> CAny c) -> (forall c S lo, CFin c S lo -> CAny c) ->
+    forall (KS : C -> Prop),   (* the kinds of searcher serving as should child *)
+    (forall c r c', KS c -> cnext c = Ok (r, c') -> KS c') ->
+    (forall c S lo, KS c -> 0 < lo -> CInv c S lo -> CAny c) -> (forall c S lo, KS c -> CFin c S lo -> CAny c) ->
     (forall c r c', cnext c = Ok (r, c') -> cmin c' = cmin c) ->
     (forall c n r c', cadv c n = Ok (r, c') -> cmin c' = cmin c) ->
     forall (N : Z) (Sm Ss Sn : option (Z -> bool)) (smin : Z) (lf : nat), (Z.to_nat N + 2 <= lf)%nat ->
-      (forall st lo, SearchersProofsBoolAdv.bool_inv C cmin CInv CFin CNew CAny N Sm Ss Sn smin st lo -> 0 <= lo ->
+      (forall st lo, SearchersProofsBoolAdv.bool_inv C cmin CInv CFin CNew CAny KS N Sm Ss Sn smin st lo -> 0 <= lo ->
          exists r st', bool_next C cnext cadv cmin lf st = Ok (r, st') /\
                        SearchersProofsBoolAdv.bool_exact_post C cmin CInv CFin CAny N Sm Ss Sn smin lo r st') /\
       (forall st lo n, SearchersProofsBoolAdv.bool_ret C cmin CInv CFin CAny N Sm Ss Sn smin st lo -> 0 <= lo -> lo <= n ->
